@@ -256,6 +256,10 @@ func (osObj *VirtualOS) SetArgs(args []string) {
 }
 
 func (osObj *VirtualOS) Chdir(dir string) error {
+	if !filepath.IsAbs(dir) {
+		// a relative directory is relative to the current one
+		dir = filepath.Join(osObj.cwd, dir)
+	}
 	osObj.cwd = dir
 	return nil
 }
